@@ -18,18 +18,28 @@ RULE = ("exhaustive: all 64000 code triples as '.rad50 /abc/' in upper and in lo
         "after '^R' (quick: ASCII, every character related by upper/lower/casefold to the alphabet, and a seeded sample); "
         "<n> for n in -3..63 and large values, alone and inside strings; generated operands of 0-12 characters in 1-4 chunks "
         "mixing both cases, <n>, ASCII outside the alphabet and non-ASCII characters; the same operands with every character spelled each way a string allows "
-        "(plain, \\xhh with lower/upper/mixed-case digits and \\X, \\n \\r \\t, escaped quote/backslash/slash, backslash-newline), every alphabet character and every byte value as a lone hex escape; '^R' with 0-6 characters. "
+        "(plain, \\xhh with lower/upper/mixed-case digits and \\X, \\n \\r \\t, escaped quote/backslash/slash, backslash-newline), every alphabet character and every byte value as a lone hex escape; '^R' with 0-6 characters; "
+        "programs of several '.rad50' statements whose <n> codes are expressions, not literals ('.'-relative in seven spellings: .-S+d, d+.-S, <.-S>/2+d, <.-S>*m+d, "
+        "d-<.-S>, S+d-., K+.-S; symbols defined before or after their use), at top level and in the body of '.repeat' (nested to depth 2, 1-5 iterations, several "
+        "statements per body, directive name in three case spellings), so that ONE statement is compiled at several addresses with different codes: a boundary family "
+        "(each spelling x 2-4 iterations x 3 statement layouts x the offset swept over -7..49, keeping every offset at which some but not all compilations have a "
+        "code outside 0..39, i.e. the code crosses 40 or 0 at each iteration; in '.repeat', written out, nested) and seeded random programs (quick 400, thorough 4000). "
+        "The harness computes every address itself (a statement of n characters/codes occupies 2*ceil(n/3) bytes) and hands Coq the list of compilations with the "
+        "concrete value of each code: the image must decode to the texts of all compilations in address order, and every compilation with a bad code or character must be reported. "
         "non-trivial = a distinct (form, text) whose result is a packed word list or an error; the exhaustive parts count one per triple / code point")
 LEVEL_TEXT = ("Coq theorems over the TABLE regenerated from radix50.py on every run: TABLE is the DEC alphabet (40 distinct characters); "
               "unpack inverts the packing weights (lia over unbounded Z); '.rad50' on operands of ANY length over the alphabet in either case "
               "with <n> codes decodes to the upper-cased space-padded text; <n> outside 0..39 and any character that is not an "
               "alphabet character in either ASCII case (any code point, unbounded) are errors; '^R' with 1-3 characters equals the word '.rad50' emits. The hand model of rad50 / radix50_literal / pack_to_int "
-              "is tied by the exhaustive sweeps above, judged in coqc.")
+              "is tied by the exhaustive sweeps above, judged in coqc. The theorems are about ONE compilation of a '.rad50' statement given the values of its <n> expressions; that every compilation of a statement "
+              "(each '.repeat' iteration, each address) behaves so, with the values the expressions have there, is tied by the program stream (Run.C15Run.corr_prog / prop_prog), not proved.")
 LEVEL_NOTE = ("Trusted: Coq kernel + vm_compute, tools/translate.py (TABLE), the sweep harness and its source printer, Spec/Rad50Spec.v, "
               "CPython's str.isascii()/str.upper() on ASCII characters. Print Assumptions: closed under the global context for every theorem.")
 TECHNIQUE = "Coq proof over regenerated table + exhaustive model/implementation correspondence judged in coqc"
 ASSUME = ["the RADIX-50 alphabet in Spec/Rad50Spec.v is DEC's"]
-TRUSTED = ["source printer of tools/props/c15.py (quoting/escaping of '.rad50' operands)"]
+TRUSTED = ["source printer of tools/props/c15.py (quoting/escaping of '.rad50' operands)",
+           "address and expression arithmetic of the program stream in tools/props/c15.py (prog_instances / expr_value: the value of '.'-relative and symbol "
+           "expressions at each compilation of a '.rad50' statement, the size 2*ceil(n/3) of a statement); cross-checked on every run by the model/implementation correspondence"]
 
 # the Spec alphabet restated: used only to *print* the canonical inputs of the exhaustive sweeps (the
 # Coq side regenerates the same inputs from Spec.alphabet; a mismatch shows up as a disagreement)
@@ -269,6 +279,272 @@ def py_holds_lit(text, o):
     if 1 <= len(m) <= 3:
         return o[0] == "ok" and len(o[1]) == 2 and py_decode([o[1][0] + 256 * o[1][1]]) == m.upper().ljust(3)
     return o[0] == "err" and "invalid-string" in o[1]
+
+
+# ------------------------------------------------------------------------------------------------
+# programs of '.rad50' statements: <expr> codes that are not literals ('.', symbols, arithmetic) and statements that are
+# compiled more than once (bodies of '.repeat', nested), so that one statement token is evaluated at several addresses.
+# A program is {"syms": [(name, value, "before"|"after")], "items": [item]}, item = ("stmt", chunks, spelling) |
+# ("rep", k, items); chunk = ("s", text) | ("e", expr).  Only '.rad50' emits bytes, so the harness knows every address:
+# a statement with n characters/codes occupies 2*ceil(n/3) bytes whatever the values are.
+def expr_value(e, off, syms):
+    k = e[0]
+    if k == "lit":
+        return e[1]
+    if k in ("dot", "dotl"):
+        return off + e[1]
+    if k == "half":
+        return off // 2 + e[1]
+    if k == "mul":
+        return off * e[1] + e[2]
+    if k in ("rev", "revl"):
+        return e[1] - off
+    if k == "sym":
+        return syms[e[1]] + e[2]
+    if k == "symdot":
+        return syms[e[1]] + off
+    raise ValueError(e)
+
+
+def dec(v):
+    return "%d." % v
+
+
+def plus(v):
+    return "" if v == 0 else ("+" + dec(v) if v > 0 else "-" + dec(-v))
+
+
+def expr_src(e):
+    k = e[0]
+    if k == "lit":
+        return "<%s>" % (dec(e[1]) if e[1] >= 0 else "-" + dec(-e[1]))
+    if k == "dot":
+        return "<.-S%s>" % plus(e[1])
+    if k == "dotl":
+        return "<%s+.-S>" % (dec(e[1]) if e[1] >= 0 else "0-" + dec(-e[1]))
+    if k == "half":
+        return "<<.-S>/2%s>" % plus(e[1])
+    if k == "mul":
+        return "<<.-S>*%s%s>" % (dec(e[1]), plus(e[2]))
+    if k == "rev":
+        return "<%s-<.-S> >" % (dec(e[1]) if e[1] >= 0 else "0-" + dec(-e[1]))     # '>>' would be the shift operator
+    if k == "revl":
+        return "<S%s-.>" % plus(e[1])
+    if k == "sym":
+        return "<%s%s>" % (e[1], plus(e[2]))
+    if k == "symdot":
+        return "<%s+.-S>" % e[1]
+    raise ValueError(e)
+
+
+def stmt_size(chunks):
+    n = sum(len(v) if kind == "s" else 1 for kind, v in chunks)
+    return 2 * ((n + 2) // 3)
+
+
+def prog_instances(prog):
+    """the compilations of '.rad50' statements in address order, each as concrete chunks [("s", text) | ("n", value)]"""
+    syms = {name: v for name, v, _ in prog["syms"]}
+    out = []
+
+    def walk(items, off):
+        for it in items:
+            if it[0] == "stmt":
+                out.append([(kind, v) if kind == "s" else ("n", expr_value(v, off, syms)) for kind, v in it[1]])
+                off += stmt_size(it[1])
+            else:
+                for _ in range(it[1]):
+                    off = walk(it[2], off)
+        return off
+    walk(prog["items"], 0)
+    return out
+
+
+def prog_src(prog):
+    lines = ["%s = %s" % (name, dec(v)) for name, v, where in prog["syms"] if where == "before"]
+    lines.append("S:")
+
+    def walk(items, ind):
+        for it in items:
+            if it[0] == "stmt":
+                lines.append(ind + it[2] + " " + " ".join(render_str(v) if kind == "s" else expr_src(v) for kind, v in it[1]))
+            else:
+                lines.append(ind + ".repeat %d {" % it[1])
+                walk(it[2], ind + "    ")
+                lines.append(ind + "}")
+    walk(prog["items"], "")
+    lines += ["%s = %s" % (name, dec(v)) for name, v, where in prog["syms"] if where == "after"]
+    return "\n".join(lines) + "\n"
+
+
+def prog_class(prog, inst):
+    """what the program exercises: (some statement is compiled several times with different codes,
+    a code of a re-compiled statement is legal the first time and illegal later, illegal first and legal later)"""
+    groups = []
+
+    def walk(items, reps):
+        for it in items:
+            if it[0] == "stmt":
+                groups.append(reps)
+            else:
+                walk(it[2], reps * it[1])
+    walk(prog["items"], 1)
+    # instances are not grouped by statement in address order when bodies hold several statements: regroup by walking again
+    per = {}
+    idx = [0]
+
+    def walk2(items, path):
+        for j, it in enumerate(items):
+            if it[0] == "stmt":
+                per.setdefault(path + (j,), []).append(inst[idx[0]])
+                idx[0] += 1
+            else:
+                for _ in range(it[1]):
+                    walk2(it[2], path + (j,))
+    walk2(prog["items"], ())
+    varying = late = early = False
+    for lst in per.values():
+        if len(lst) < 2:
+            continue
+        if any(x != lst[0] for x in lst[1:]):
+            varying = True
+        bad = [py_expected(x)[0] is None for x in lst]
+        if not bad[0] and any(bad):
+            late = True
+        if bad[0] and not all(bad):
+            early = True
+    return varying, late, early
+
+
+def boundary_programs():
+    """one statement with one non-literal code in '.repeat k', the offset swept so that the code crosses 40 (or 0) at every
+    iteration; the same statement written out k times; in a nested '.repeat'"""
+    out = []
+    forms = [lambda d: ("dot", d), lambda d: ("dotl", d), lambda d: ("half", d), lambda d: ("mul", 2, d), lambda d: ("rev", d), lambda d: ("revl", d),
+             lambda d: ("symdot", "K"), lambda d: ("sym", "K", 0)]
+    for fi, f in enumerate(forms):
+        for k in (2, 3, 4):
+            for layout in range(3):
+                for d in range(-7, 50):
+                    e = f(d)
+                    chunks = [[("s", "xy"), ("e", e)], [("e", e), ("s", "Ab")], [("s", "q"), ("e", e), ("s", "RS"), ("e", ("lit", 39))]][layout]
+                    syms = [("K", d, "after" if (d + k) % 2 else "before")] if e[0] in ("sym", "symdot") else []
+                    if syms and d < 0:
+                        continue
+                    st = ("stmt", chunks, ".rad50")
+                    shapes = [[("rep", k, [st])]]
+                    if layout == 0:
+                        shapes.append([st] * k)
+                        shapes.append([("rep", 2, [("rep", k - 1, [st]), ("stmt", [("s", "end")], ".RAD50")])] if k > 2 else [("rep", k, [("stmt", [("s", "A")], ".rad50"), st])])
+                    for items in shapes:
+                        prog = {"syms": syms, "items": items}
+                        inst = prog_instances(prog)
+                        bad = [py_expected(x)[0] is None for x in inst]
+                        if (any(bad) and not all(bad)) or d in (0, 1, 30):
+                            out.append(prog)
+    return out
+
+
+def gen_programs(rng, n):
+    both = ALPHA + ALPHA.lower()
+
+    def gen_expr(names):
+        wild = rng.random() < 0.15
+        r = rng.random()
+        if r < 0.12:
+            e = ("lit", rng.randrange(40))
+        elif r < 0.32:
+            e = ("dot", rng.randrange(0, 12))
+        elif r < 0.42:
+            e = ("dotl", rng.randrange(0, 12))
+        elif r < 0.54:
+            e = ("half", rng.randrange(0, 30))
+        elif r < 0.64:
+            e = ("mul", rng.choice([2, 3]), rng.randrange(0, 6))
+        elif r < 0.78:
+            e = (rng.choice(["rev", "revl"]), rng.randrange(20, 40))
+        elif r < 0.88 and names:
+            e = ("sym", rng.choice(names), rng.randrange(0, 3))
+        elif names:
+            e = ("symdot", rng.choice(names))
+        else:
+            e = ("dot", rng.randrange(0, 4))
+        if wild and e[0] not in ("symdot",):
+            e = e[:-1] + (e[-1] + rng.choice([30, 36, 38, 40, -3, -20, 1000]),)
+        return e
+
+    def gen_stmt(names):
+        chunks = []
+        for _ in range(rng.choice([1, 1, 2, 2, 3])):
+            if rng.random() < 0.45:
+                chunks.append(("e", gen_expr(names)))
+            else:
+                t = "".join(rng.choice(both) for _ in range(rng.choice([0, 1, 2, 2, 3, 4])))
+                if rng.random() < 0.04:
+                    t += rng.choice("!_,ſ")
+                chunks.append(("s", t))
+        if not any(kind == "e" for kind, _ in chunks) and rng.random() < 0.7:
+            chunks.insert(rng.randrange(len(chunks) + 1), ("e", gen_expr(names)))
+        return ("stmt", chunks, rng.choice([".rad50", ".rad50", ".rad50", ".RAD50", ".Rad50"]))
+
+    def gen_items(depth, names):
+        items = []
+        for _ in range(rng.choice([1, 1, 2, 3])):
+            if depth < 2 and rng.random() < (0.5 if depth == 0 else 0.3):
+                items.append(("rep", rng.choice([1, 2, 2, 3, 3, 4, 5]), gen_items(depth + 1, names)))
+            else:
+                items.append(gen_stmt(names))
+        return items
+
+    out = []
+    while len(out) < n:
+        syms = [(nm, (rng.randrange(0, 14) if rng.random() < 0.8 else rng.randrange(30, 45)), rng.choice(["before", "after"]))
+                for nm in rng.sample(["K", "Code", "N1"], rng.choice([0, 1, 1, 2]))]
+        prog = {"syms": syms, "items": gen_items(0, [s[0] for s in syms])}
+        inst = prog_instances(prog)
+        if 1 <= len(inst) <= 30:
+            out.append(prog)
+    return out
+
+
+def py_holds_prog(inst, o):
+    exp = [py_expected(ch) for ch in inst]
+    if all(t is not None for t, _, _ in exp):
+        if o[0] != "ok" or len(o[1]) % 2:
+            return False
+        return py_decode([o[1][i] + 256 * o[1][i + 1] for i in range(0, len(o[1]), 2)]) == "".join(t for t, _, _ in exp)
+    nc = sum(1 for _, bc, _ in exp if bc)
+    nn = sum(1 for _, _, bn in exp if bn)
+    return o[0] == "err" and o[1].count("invalid-character") >= nc and o[1].count("value-out-of-bounds") >= nn
+
+
+def prog_case(prog, inst, o):
+    exact = not any(where == "after" for _, _, where in prog["syms"])
+    return "CProg %s [%s] %s" % ("true" if exact else "false", "; ".join(chunks_term(ch) for ch in inst), obs_term(o))
+
+
+def prog_expected(inst):
+    exp = [py_expected(ch) for ch in inst]
+    return [({"decodes_to": t} if t is not None else {"error": (["invalid-character"] if bc else []) + (["value-out-of-bounds"] if bn else [])}) for t, bc, bn in exp]
+
+
+def run_programs(rep, tier, rng, terms, descr):
+    progs = boundary_programs() + gen_programs(rng, 400 if tier == "quick" else 4000)
+    srcs = [prog_src(p) for p in progs]
+    outs = impl.pmap("assemble", [asm(s) for s in srcs], chunksize=32)
+    for p, src, r in zip(progs, srcs, outs):
+        o = observe(r)
+        inst = prog_instances(p)
+        varying, late, early = prog_class(p, inst)
+        rep.add_eval()
+        rep.count("prog:" + o[0])
+        for flag, name in ((varying, "recompiled-with-different-codes"), (late, "code-legal-first-illegal-later"), (early, "code-illegal-first-legal-later")):
+            if flag:
+                rep.count("prog:" + name)
+        rep.nontrivial(("prog", src))
+        terms.append(prog_case(p, inst, o))
+        descr.append(("prog", inst, o, src))
+    rep.sample({"source": srcs[-1], "compilations": [render_chunks(ch) for ch in prog_instances(progs[-1])], "impl": observe(outs[-1])})
 
 
 # ------------------------------------------------------------------------------------------------
@@ -574,6 +850,8 @@ def explore(rep, br, tier, seed):
         terms.append(dir_case(ch, o))
         descr.append(("dir", ch, o, ".rad50 " + src + "\n"))
     rep.sample({"source": ".rad50 " + ecases[-1][1], "denotes": ecases[-1][0], "impl": observe(outs[-1])})
+    # 4c. programs: codes given by expressions, statements compiled several times
+    run_programs(rep, tier, random.Random(seed * 7919 + 15), terms, descr)
     lcases = gen_lit_cases(rng, n // 2)
     for t in lcases:                      # the literal parser on its own: exact value, errors and extent, whatever follows
         o, consumed = lit_token(t)
@@ -668,6 +946,18 @@ def report_case(rep, d, code):
                         inp, impl=o, expected=({"decodes_to": text} if text is not None else {"error": (["invalid-character"] if bc else []) + (["value-out-of-bounds"] if bn else [])}),
                         replay_kind="dir")
         return
+    if kind == "prog":
+        _, inst, o, src = d
+        inp = {"files": [["t.mac", src]], "instances": [[[k, v] for k, v in ch] for ch in inst]}
+        if code & 1:
+            rep.disagree("Model.Rad50.rad50 over the compilations of a program of '.rad50' statements vs the assembled image", inp, impl=o)
+        if code & 2:
+            rep.violate("prog:" + " | ".join(x.strip() for x in src.strip().split("\n")),
+                        "a program of '.rad50' statements (codes given by expressions; statements compiled once per '.repeat' iteration) contradicts C15: "
+                        "the image must decode to the text of every compilation in address order, and a compilation with a bad code/character must be reported "
+                        "(judged in Coq: Run.C15Run.prop_prog against Spec.Rad50Spec)",
+                        inp, impl=o, expected={"per_compilation": prog_expected(inst), "compilations": [".rad50 " + render_chunks(ch) for ch in inst]}, replay_kind="prog")
+        return
     if kind == "littok":
         _, t, o, consumed = d
         inp = {"files": [["t.mac", ".word ^R" + t]], "literal_text": t, "token_level": True}
@@ -718,6 +1008,16 @@ def search_without_model(rep, tier, seed):
             rep.violate("dir:.rad50 " + render_chunks(ch), "'.rad50' result contradicts C15 (python restatement of the Spec)",
                         {"files": [["t.mac", ".rad50 " + render_chunks(ch) + "\n"]], "chunks": [[k, v] for k, v in ch]}, impl=o, replay_kind="dir")
             return
+    for p in boundary_programs() + gen_programs(random.Random(seed * 7919 + 15), 400):
+        src = prog_src(p)
+        inst = prog_instances(p)
+        o = observe(impl.assemble([("t.mac", src)]))
+        if not py_holds_prog(inst, o):
+            rep.violate("prog:" + " | ".join(x.strip() for x in src.strip().split("\n")),
+                        "a program of '.rad50' statements (codes given by expressions; statements compiled once per '.repeat' iteration) contradicts C15 (python restatement of the Spec)",
+                        {"files": [["t.mac", src]], "instances": [[[k, v] for k, v in ch] for ch in inst]}, impl=o,
+                        expected={"per_compilation": prog_expected(inst)}, replay_kind="prog")
+            return
     for ch, src in escape_cases(rng, 300):
         o = observe(impl.assemble([("t.mac", ".rad50 " + src + "\n")]))
         if not py_holds_dir(ch, o):
@@ -744,6 +1044,8 @@ def replay(data):
     files = [tuple(x) for x in inp["files"]]
     o = observe(impl.assemble(files))
     print("source:", repr(files[0][1]), "-> now:", o)
+    if "instances" in inp:
+        return py_holds_prog([[(k, v) for k, v in ch] for ch in inp["instances"]], o)
     if "chunks" in inp:
         return py_holds_dir([(k, v) for k, v in inp["chunks"]], o)
     if inp.get("token_level"):
